@@ -31,6 +31,57 @@ var ioMethod = map[string]bool{"Read": true, "Write": true, "ReadFrom": true, "W
 var ioFuncPkg = map[string]bool{"io": true, "bufio": true, "ioutil": true}
 var ctxNameRE = regexp.MustCompile(`(?i)ctx$|context$`)
 
+// connFields: the names under which the `connUses` extraction recognises the connection fields of
+// stream.Stream. The extraction is BY NAME; streamIOFields (below) checks the names against the
+// struct declaration BY TYPE, so that a renamed or added connection field cannot silently empty
+// (or thin out) the tables.
+var connFields = map[string]bool{"conn": true, "reader": true, "writer": true}
+
+// ioEndpointTypeRE: field types through which bytes can reach or leave the process.
+var ioEndpointTypeRE = regexp.MustCompile(`^\*?(net|io|bufio|tls|os)\.\w*(Conn|Reader|Writer|ReadWriter|ReadCloser|WriteCloser|ReadWriteCloser|File)$`)
+
+// ioScan: how much the extraction looked at. The tables of (d) list EXCEPTIONS and are legitimately
+// empty in a clean tree; these counters are what distinguishes "no exception found" from "the
+// pattern no longer matches anything".
+type ioScan struct{ funcs, ctxParamFuncs, ctxArgs int }
+
+// streamIOFieldsOf lists (name, type) of every field of struct `Stream` whose declared type is an
+// I/O endpoint, in declaration order; ok = the struct was found.
+func streamIOFieldsOf(p *pkgInfo) (out [][2]string, ok bool) {
+	for _, f := range p.files {
+		for _, d := range f.Decls {
+			gd, isGen := d.(*ast.GenDecl)
+			if !isGen {
+				continue
+			}
+			for _, sp := range gd.Specs {
+				ts, isTS := sp.(*ast.TypeSpec)
+				if !isTS || ts.Name.Name != "Stream" {
+					continue
+				}
+				st, isSt := ts.Type.(*ast.StructType)
+				if !isSt {
+					continue
+				}
+				ok = true
+				for _, fl := range st.Fields.List {
+					t := exprStr(fl.Type)
+					if !ioEndpointTypeRE.MatchString(t) {
+						continue
+					}
+					if len(fl.Names) == 0 { // embedded
+						out = append(out, [2]string{t[strings.LastIndex(t, ".")+1:], t})
+					}
+					for _, n := range fl.Names {
+						out = append(out, [2]string{n.Name, t})
+					}
+				}
+			}
+		}
+	}
+	return
+}
+
 func isCtxType(e ast.Expr) bool {
 	s, ok := e.(*ast.SelectorExpr)
 	if !ok {
@@ -66,7 +117,7 @@ func isPkgIdent(e ast.Expr, name string) bool {
 	return ok && x.Name == name
 }
 
-func collectIOFacts(p *pkgInfo, dir string, wantConn bool) (connIO, connUses, fresh, foreign, stored []ioFact) {
+func collectIOFacts(p *pkgInfo, dir string, wantConn bool, scan *ioScan) (connIO, connUses, fresh, foreign, stored []ioFact) {
 	for _, f := range p.files {
 		file := dir + "/" + strings.TrimPrefix(p.fset.Position(f.Pos()).Filename[strings.LastIndex(p.fset.Position(f.Pos()).Filename, "/"):], "/")
 		for _, d := range f.Decls {
@@ -75,13 +126,19 @@ func collectIOFacts(p *pkgInfo, dir string, wantConn bool) (connIO, connUses, fr
 				continue
 			}
 			fn := funcName(fd)
+			scan.funcs++
 			derived := map[types.Object]bool{}
 			addParams := func(ft *ast.FuncType) {
 				if ft == nil || ft.Params == nil {
 					return
 				}
+				counted := false
 				for _, fl := range ft.Params.List {
 					if isCtxType(fl.Type) {
+						if !counted {
+							scan.ctxParamFuncs++
+							counted = true
+						}
 						for _, n := range fl.Names {
 							if o := p.info.Defs[n]; o != nil {
 								derived[o] = true
@@ -195,6 +252,7 @@ func collectIOFacts(p *pkgInfo, dir string, wantConn bool) (connIO, connUses, fr
 						if !ctxLike(a) {
 							continue
 						}
+						scan.ctxArgs++
 						if c, ok := a.(*ast.CallExpr); ok {
 							if s, ok := c.Fun.(*ast.SelectorExpr); ok && (s.Sel.Name == "Background" || s.Sel.Name == "TODO") {
 								continue // listed in ctxFresh
@@ -225,7 +283,7 @@ func collectIOFacts(p *pkgInfo, dir string, wantConn bool) (connIO, connUses, fr
 					if !wantConn {
 						break
 					}
-					if v.Sel.Name == "conn" || v.Sel.Name == "reader" || v.Sel.Name == "writer" {
+					if connFields[v.Sel.Name] {
 						if _, ok := v.X.(*ast.Ident); !ok {
 							break
 						}
@@ -317,18 +375,44 @@ func genFactsIO(repo, out string) error {
 	b.WriteString("-- rows: (file, enclosing function, what, detail)\n")
 	b.WriteString("namespace CedarGen.FactsIO\n\n")
 	var connIO, connUses, fresh, foreign, stored []ioFact
+	var scan ioScan
+	var ioFields [][2]string
 	for _, d := range []string{"stream", "security", "message"} {
 		p, err := loadPkg(repo, d)
 		if err != nil {
 			return err
 		}
-		ci, cu, fr, fo, st := collectIOFacts(p, d, d == "stream")
+		if d == "stream" {
+			var found bool
+			if ioFields, found = streamIOFieldsOf(p); !found {
+				return fmt.Errorf("OBLIGATION translator/facts_io: struct stream.Stream not found; the C19 tables connIO / connUses " +
+					"(theorem all_io_wrapped) cannot be extracted. Teach tools/gen/facts_io.go where the connection lives now")
+			}
+		}
+		ci, cu, fr, fo, st := collectIOFacts(p, d, d == "stream", &scan)
 		connIO = append(connIO, ci...)
 		connUses = append(connUses, cu...)
 		fresh = append(fresh, fr...)
 		foreign = append(foreign, fo...)
 		stored = append(stored, st...)
 	}
+	if err := checkIOFacts(ioFields, connIO, connUses, scan); err != nil {
+		return err
+	}
+	b.WriteString("/-- the fields of stream.Stream whose declared type is an I/O endpoint (net.Conn, io.Reader, io.Writer, ...), found BY TYPE: (name, type). " +
+		"connUses below is extracted BY NAME (conn / reader / writer); the generator refuses to run unless every field listed here has one of those names -/\n")
+	b.WriteString("def streamIOFields : List (String × String) := [")
+	for i, f := range ioFields {
+		if i > 0 {
+			b.WriteString(", ")
+		}
+		fmt.Fprintf(&b, "(%s, %s)", leanStr(f[0]), leanStr(f[1]))
+	}
+	b.WriteString("]\n\n")
+	b.WriteString("/-- how much the extraction examined in stream/ security/ message/: function declarations with a body; functions (declarations and literals) " +
+		"with a context.Context parameter; context-like call arguments classified (derived, fresh or foreign). The tables of (d) list exceptions only: " +
+		"these counters tell an empty table of a clean tree from a pattern that matches nothing -/\n")
+	fmt.Fprintf(&b, "def funcsScanned : Nat := %d\ndef ctxParamFuncs : Nat := %d\ndef ctxArgsSeen : Nat := %d\n\n", scan.funcs, scan.ctxParamFuncs, scan.ctxArgs)
 	writeFacts(&b, "connIO", "(c) calls in stream/ that read or write through the connection", connIO)
 	writeFacts(&b, "connUses", "(c) mentions of the Stream fields conn / reader / writer in stream/ (what = field, detail = use)", connUses)
 	writeFacts(&b, "ctxFresh", "(d) context.Background() / context.TODO() in stream/ security/ message/", fresh)
@@ -336,4 +420,53 @@ func genFactsIO(repo, out string) error {
 	writeFacts(&b, "ctxStored", "(d) contexts stored into a struct field (what = field, detail = derived|foreign)", stored)
 	b.WriteString("end CedarGen.FactsIO\n")
 	return os.WriteFile(out, []byte(b.String()), 0o644)
+}
+
+// checkIOFacts: an empty (or thinned-out) table of (c) means the extraction pattern no longer matches
+// the library, and `all_io_wrapped` would hold vacuously. Refuse to generate.
+func checkIOFacts(ioFields [][2]string, connIO, connUses []ioFact, scan ioScan) error {
+	const hint = ". The C19 theorem all_io_wrapped (CedarProps/C19.lean) would hold vacuously over such a table, so nothing is generated. " +
+		"Teach tools/gen/facts_io.go (connFields, connNameRE, connMentionRE, ioMethod) the new names; the declared lists in C19.lean then need the same update"
+	if len(ioFields) == 0 {
+		return fmt.Errorf("OBLIGATION translator/facts_io: stream.Stream has no field of an I/O endpoint type (net.Conn, io.Reader, io.Writer, ...): "+
+			"the connection moved out of the struct or changed type%s", hint)
+	}
+	for _, f := range ioFields {
+		if !connFields[f[0]] {
+			return fmt.Errorf("OBLIGATION translator/facts_io: stream.Stream has the I/O field `%s %s`, which the extraction of connUses / connIO does not track "+
+				"(it knows conn, reader, writer by name): a renamed or new connection field%s", f[0], f[1], hint)
+		}
+	}
+	if len(connIO) == 0 {
+		return fmt.Errorf("OBLIGATION translator/facts_io: table connIO is EMPTY: no call in stream/ was recognised as reading or writing through the connection%s", hint)
+	}
+	if len(connUses) == 0 {
+		return fmt.Errorf("OBLIGATION translator/facts_io: table connUses is EMPTY: no mention of the Stream fields conn / reader / writer was found in stream/%s", hint)
+	}
+	used := map[string]bool{}
+	reads, writes := false, false
+	for _, u := range connUses {
+		used[u.what] = true
+		switch {
+		case strings.HasPrefix(u.detail, "call:Read") || strings.HasPrefix(u.detail, "arg:io.Read") || strings.HasPrefix(u.detail, "arg:io.Copy") || strings.HasPrefix(u.detail, "arg:bufio.NewReader"):
+			reads = true
+		case strings.HasPrefix(u.detail, "call:Write") || strings.HasPrefix(u.detail, "arg:io.Write") || strings.HasPrefix(u.detail, "arg:io.Copy") || strings.HasPrefix(u.detail, "arg:bufio.NewWriter"):
+			writes = true
+		}
+	}
+	for _, f := range ioFields {
+		if !used[f[0]] {
+			return fmt.Errorf("OBLIGATION translator/facts_io: the I/O field stream.Stream.%s is never mentioned in table connUses: the mention pattern (x.%s with x an identifier) no longer matches%s", f[0], f[0], hint)
+		}
+	}
+	if !reads || !writes {
+		return fmt.Errorf("OBLIGATION translator/facts_io: table connUses holds no %s site: a library that never %s the connection is implausible, the use classification no longer matches%s",
+			map[bool]string{true: "write", false: "read"}[reads], map[bool]string{true: "writes to", false: "reads from"}[reads], hint)
+	}
+	if scan.funcs == 0 || scan.ctxParamFuncs == 0 || scan.ctxArgs == 0 {
+		return fmt.Errorf("OBLIGATION translator/facts_io: the context scan of stream/ security/ message/ examined %d functions, %d with a context.Context parameter, %d context-like arguments: "+
+			"a zero means the pattern (parameter type context.Context, names matching ctx$|context$) no longer matches, and the C19 theorem ctx_threaded would hold vacuously over empty tables of exceptions",
+			scan.funcs, scan.ctxParamFuncs, scan.ctxArgs)
+	}
+	return nil
 }
